@@ -309,7 +309,11 @@ def writeBlock (b : Bytes) : M (Option (Nat × Nat × Nat)) := do
   let d ← get
   let fullLen := b.length + 12
   if needsRollover d.wcOff fullLen d.maxFile then
-    if d.curOpen then let _ ← io "close"
+    if d.curOpen then
+      -- sync before close: later flushes only sync the then-current file
+      if !(← io "sync") then return none
+      markSynced d.wcFile
+      let _ ← io "close"
     modify fun d => { d with curOpen := false, wcFile := d.wcFile + 1, wcOff := 0 }
   let d ← get
   if !d.curOpen then
@@ -390,25 +394,12 @@ def Tx.del (t : Tx) (k : Key) : Tx :=
 def Tx.flat (t : Tx) : KV :=
   if t.writable then applyLayer cmpB t.pKeys (t.pRem.map (·.1)) t.snap.flat else t.snap.flat
 
-/-- `writePendingAndCommit` + `commitTx`.  Answers with the Spec on the one point where the code
-deviates from it (pending file deletions are executed first and are not undone when the commit
-fails later): `specAtomic` keeps the files in that case. -/
+/-- `writePendingAndCommit` + `commitTx`: blocks, index rows, write-cursor row, cache commit (with
+a flush first when the cache is over its limit); pruned files are removed last, after a flush. -/
 def commit (id : String) : M String := do
   let some t ← getTx id | return "notx"
   dropTx id
   if !t.writable then return "err:TxNotWritable"
-  let before ← get
-  let fail (code : String) : M String := do
-    -- Spec: a failed commit leaves the block files it wanted to delete in place
-    modify fun d => { d with files := (t.pDel.foldl (fun fs n =>
-      match fileGet before.files n with
-      | some b => if (fileGet fs n).isNone then fileSet fs n b else fs
-      | none => fs) d.files) }
-    return code
-  -- pending file deletions
-  for n in t.pDel do
-    modify fun d => { d with openRead := d.openRead.filter (· != n) }
-    if !(← removeFile n) then return ← fail "err:DriverSpecific"
   let d ← get
   let (oldFile, oldOff) := (d.wcFile, d.wcOff)
   -- blocks
@@ -417,19 +408,28 @@ def commit (id : String) : M String := do
     match ← writeBlock (blockBytes bid len) with
     | none =>
       handleRollback oldFile oldOff
-      return ← fail "err:DriverSpecific"
+      return "err:DriverSpecific"
     | some (f, o, l) =>
       t := t.put (bucketizedKey blockIdxBucketID (blockHash bid)) (serializeBlockLoc f o l)
   let d ← get
   t := t.put (bucketizedKey metadataBucketID writeLocKeyName) (serializeWriteRow crc32c d.wcFile d.wcOff)
   -- commitTx
   if needsFlush t.snap d.maxCache then
-    if !(← flush) then return ← fail "err:DriverSpecific"
+    if !(← flush) then return "err:DriverSpecific"
     modify fun d => { d with ldb := applyToLdb d.ldb t.pKeys t.pRem }
-    return "ok"
-  modify fun d =>
-    let (a, b) := commitCache d.cKeys d.cRem t.pKeys t.pRem
-    { d with cKeys := a, cRem := b }
+  else
+    modify fun d =>
+      let (a, b) := commitCache d.cKeys d.cRem t.pKeys t.pRem
+      { d with cKeys := a, cRem := b }
+  -- pruned files: only once the metadata is durable; failures are only logged
+  if !t.pDel.isEmpty then
+    if !(← flush) then return "ok"
+    for n in t.pDel do
+      let d ← get
+      if d.openRead.contains n then
+        let _ ← io "close"
+        modify fun d => { d with openRead := d.openRead.filter (· != n) }
+      let _ ← removeFile n
   return "ok"
 
 /-- state of a freshly created database (`initDB`) -/
@@ -582,11 +582,11 @@ def cursorOp (mv cid : String) (seek : Key) : M (Option String) := do
     | none => return none
     | some t =>
       if mv == "D" then
+        if !t.writable then return some "err:TxNotWritable"
         match c.cur with
         | none => return some "err:IncompatibleValue"
         | some raw =>
           if hasPrefix bucketIndexPrefix raw then return some "err:IncompatibleValue"
-          if !t.writable then return some "err:TxNotWritable"
           setTx c.tx (t.del raw)
           return some "ok"
       else
